@@ -1,1 +1,1 @@
-// placeholder
+#![allow(dead_code)]
